@@ -60,6 +60,9 @@ def _run_unit(unit):
             rows.append((ps, ser.move_str(m), label, implrun.move_out(pos, m)))
         for m in gen.illformed_moves(rng, size, ill_n, pos):
             rows.append((ps, ser.move_str(m), "ill", implrun.move_out(pos, m)))
+        off = gen.offboard_moves(size)
+        for m in rng.sample(off, min(len(off), 150)):
+            rows.append((ps, ser.move_str(m), "off-board", implrun.move_out(pos, m)))
     if not exh:
         # very tall stacks (17, 33, 40 stones) and slides whose drop counts are far beyond any board
         import tak
@@ -75,6 +78,11 @@ def _run_unit(unit):
                         rows.append((ps, ser.move_str(m), "ill-big", implrun.move_out(pos, m)))
             for m in universe[:: max(1, len(universe) // 200)]:
                 rows.append((ps, ser.move_str(m), "tower", implrun.move_out(pos, m)))
+            # every slide that runs off the board, from the tower (tall enough for any carry) and
+            # from the other squares
+            off = gen.offboard_moves(size)
+            for m in [m for m in off if (m.x, m.y) == (x, y)] + off[:: max(1, len(off) // 300)]:
+                rows.append((ps, ser.move_str(m), "off-board", implrun.move_out(pos, m)))
     model_out = driver.run_lines(["move apply %s %s" % (r[0], r[1]) for r in rows])
     return rows, model_out, labels
 
